@@ -459,7 +459,12 @@ def nfa(
                 connect(compile(expr["expr"], cur), next)
                 cur = next
             if expr["max"] == -1:
-                connect(compile(expr["expr"], cur), cur)
+                # loop on a node of its own: with min == 0, `cur` is still the
+                # node shared with sibling alternatives
+                loop = node()
+                edge(cur, loop)
+                connect(compile(expr["expr"], loop), loop)
+                cur = loop
             else:
                 for _i in range(expr["min"], expr["max"]):
                     next = node()
